@@ -36,6 +36,13 @@ def moduli(rng, n, nrand):
             ms.append((1 << (64 * m)) - 1)            # zero high limbs, all-ones low part
             ms.append(value(rng, m) | 1)              # zero high limbs, odd
             ms.append(rng.getrandbits(64 * m) + 2)
+    # bit lengths around HALF the width and around every limb boundary (a `bits(p)`-based shortcut or bound that is off
+    # by one shows only there: seed C07-m4, `2*(bits-1) <= BITS` instead of `2*bits <= BITS`)
+    half = 32 * n
+    for bl in (half, half + 1):
+        if 2 <= bl <= 64 * n:
+            ms.append((1 << (bl - 1)) + 1)
+            ms.append((1 << bl) - 1)
     for _ in range(nrand):
         ms.append(rng.getrandbits(64 * n) | (1 << (64 * n - 1)))    # full length
         ms.append(value(rng, n))
